@@ -3,7 +3,8 @@
    (random configuration, connections from random source addresses, 1..4 kept-alive requests each with
    random X-Forwarded-For lists of up to 4 entries, random route, targets drawn from a small pool so that
    the file cache fills up by itself) and logs what it did and saw:
-     ev = "cfg"   a server was started with (mode, list, cache)
+     ev = "cfg"   a server was started with (mode, list, cache); dual = it listens on "::" and is reached
+                  by IPv4 clients (which it sees in IPv4-mapped form)
      ev = "conn"  a client connected from `peer`
      ev = "req"   request n on that connection: X-Forwarded-For (present, es), route type, uri ->
                   res (result class seen by the client), fromCache (content was older than the file on disk)
@@ -27,13 +28,16 @@ TraceGarbage == UNION { { Rec[i].es[j].a : j \in { j \in 1..Len(Rec[i].es) : Rec
 VARIABLES l, cfg, cached, c, conn, bad, attributed, nattr, lenient, cachediv, nreq
 tvars == <<l, cfg, cached, c, conn, bad, attributed, nattr, lenient, cachediv, nreq>>
 
-B == INSTANCE Blacklist WITH Addrs <- TraceAddrs, Peers <- TraceAddrs, Garbage <- TraceGarbage,
+B == INSTANCE Blacklist WITH Addrs <- TraceAddrs, Peers <- TraceAddrs, DualStackPeers <- {}, Garbage <- TraceGarbage,
                              Lists <- {}, MaxXff <- 0, Uris <- {}, Conns <- {1}, Dev <- {}
+\* the same operators for a server started on a dual-stack address: every IPv4 peer arrives in mapped form
+BD == INSTANCE Blacklist WITH Addrs <- TraceAddrs, Peers <- TraceAddrs, DualStackPeers <- TraceAddrs, Garbage <- TraceGarbage,
+                              Lists <- {}, MaxXff <- 0, Uris <- {}, Conns <- {1}, Dev <- {}
 
 NoConn == [open |-> FALSE, peer |-> "", n |-> 0]
 
 Init == /\ l = 1
-        /\ cfg = [mode |-> "block", list |-> {}, cache |-> FALSE]
+        /\ cfg = [mode |-> "block", list |-> {}, cache |-> FALSE, dual |-> FALSE]
         /\ cached = {}
         /\ c = [k \in {1} |-> B!Fresh]          \* (unused; Blacklist's variable)
         /\ conn = NoConn
@@ -44,7 +48,7 @@ Reject == IF Len(bad) >= Cap THEN bad ELSE Append(bad, [line |-> l, dev |-> "", 
 
 Step(r) ==
   CASE r.ev = "cfg" ->
-         /\ cfg' = [mode |-> r.mode, list |-> RangeOf(r.list), cache |-> r.cache]
+         /\ cfg' = [mode |-> r.mode, list |-> RangeOf(r.list), cache |-> r.cache, dual |-> r.dual]
          /\ cached' = {} /\ conn' = NoConn
          /\ UNCHANGED <<bad, attributed, nattr, lenient, cachediv, nreq>>
     [] r.ev = "conn" ->
@@ -67,7 +71,9 @@ Step(r) ==
              hit     == cfg.cache /\ warm                          \* Srv_*_CacheCheck
              \* a rejected record that is exactly what one historical deviation alone predicts
              expl    == IF wellformed /\ (r.res = "Dropped" => conn.n = 0)
-                        THEN { d \in B!HistoricalDevs : B!Model({d}, cfg, conn.peer, x, r.rt, warm) = r.res }
+                        THEN { d \in B!HistoricalDevs :
+                                 (IF cfg.dual THEN BD!Model({d}, cfg, conn.peer, x, r.rt, warm)
+                                              ELSE B!Model({d}, cfg, conn.peer, x, r.rt, warm)) = r.res }
                         ELSE {}
              entry   == [line |-> l, dev |-> (IF expl = {} THEN "" ELSE CHOOSE d \in expl : TRUE), allowed |-> allowed]
          IN /\ bad' = IF ok \/ expl # {} \/ Len(bad) >= Cap THEN bad ELSE Append(bad, entry)
